@@ -418,5 +418,107 @@ def replay_readers(case):
     check_readers(Ctx(PROPERTY, "readers", "thorough", 0, 0, 1), (backend, block, sel, pattern, [tuple(x) for x in sessions], tape, pace))
 
 
+# ---------------------------------------------------------------- a data path slower than the control path
+LATE = st.tuples(st.sampled_from(["mem", "fs"]), st.sampled_from(["epsv", "pasv"]), st.sampled_from([0, 0.004, 0.05, 0.3, 1.5]),
+                 st.sampled_from(["retr_missing", "stor_refused", "list_missing", "stor_ok", "none"]),
+                 st.sampled_from(["stor", "appe", "retr", "stor", "upload_file"]), st.integers(0, 255), st.integers(0, 6))
+
+
+async def _late(loop, case, info, tmp):
+    backend, passive, delay, first, second, sel, pattern = case
+    users = [aioftp.User(base_path=tmp)] if backend != "mem" else [aioftp.User()]
+    server = aioftp.Server(users, path_io_factory=harness.BACKENDS[backend], block_size=64, wait_future_timeout=1)
+    await server.start(HOST, PORT)
+    loop.net.accept_delay = lambda port: delay if port != PORT else 0
+    stored = payload_for(300 + sel, (pattern + 1) % 7, sel)
+    (harness.mem_populate(server, {"/old.bin": stored}) if backend == "mem" else harness.fs_populate(tmp, {"/old.bin": stored}))
+    c = aioftp.Client(path_io_factory=aioftp.MemoryPathIO, passive_commands=(passive,))
+    await c.connect(HOST, PORT)
+    await c.login()
+    first_payload = payload_for(200 + sel, pattern, (sel + 1) % 256)
+    data = payload_for(1000 + 7 * sel, (pattern + 3) % 7, (sel + 2) % 256)
+    try:
+        try:
+            if first == "retr_missing":
+                async with c.download_stream("missing.bin") as s_:
+                    await s_.read()
+            elif first == "list_missing":
+                await c.list("no-such-dir")
+            elif first == "stor_refused":
+                async with c.upload_stream("no-such-dir/x.bin") as s_:
+                    await s_.write(first_payload)
+            elif first == "stor_ok":
+                async with c.upload_stream("first.bin") as s_:
+                    await s_.write(first_payload)
+            info["first"] = "completed"
+        except (aioftp.StatusCodeError, ConnectionError, OSError, asyncio.TimeoutError) as e:
+            info["first"] = "raised " + type(e).__name__ + (" " + "/".join(str(x) for x in e.received_codes) if isinstance(e, aioftp.StatusCodeError) else "")
+        # the operation under test: whatever happened before, if it returns normally its bytes are exact
+        try:
+            if second in ("stor", "appe"):
+                async with (c.upload_stream if second == "stor" else c.append_stream)("second.bin") as s_:
+                    await s_.write(data)
+                got, want = None, data
+            elif second == "upload_file":
+                async with c.path_io.open(aioftp.pathio.pathlib.PurePosixPath("/local.bin"), "wb") as f:
+                    await f.write(data)
+                await c.upload("/local.bin", "second.bin", write_into=True)
+                got, want = None, data
+            else:
+                async with c.download_stream("old.bin") as s_:
+                    got = await s_.read()
+                want = stored
+            info["second"] = "completed"
+        except (aioftp.StatusCodeError, ConnectionError, OSError, asyncio.TimeoutError) as e:
+            info["second"] = "raised " + type(e).__name__
+            return
+        await asyncio.sleep(delay + 3)
+        if got is None:
+            tree = harness.mem_tree(server) if backend == "mem" else harness.fs_tree(tmp)
+            got = tree.get("/second.bin")
+        if got != want:
+            if got == first_payload and first == "stor_ok" and second != "retr":
+                # the data connection of the earlier (timed-out) transfer arrived late and was taken for this one
+                sig = "C01/late/upload_stored_the_data_of_the_earlier_transfer_whose_connection_arrived_late"
+            else:
+                sig = f"C01/late/{second}/completed_with_wrong_bytes_after_{first}"
+            raise Violation(sig,
+                            dict(backend=backend, passive=passive, data_path_extra_delay=delay, first=first, first_outcome=info.get("first"),
+                                 second=second, expected_len=len(want), got_len=None if got is None else len(got),
+                                 got_starts=None if got is None else repr(got[:12]), expected_starts=repr(want[:12])))
+    finally:
+        c.close()
+        await asyncio.sleep(delay + 2)
+        await asyncio.wait_for(server.close(), 1000)
+
+
+def check_late(ctx, case):
+    info = {}
+    try:
+        with harness.TempDirs() as td:
+            tmp = td.new() if case[0] != "mem" else None
+            try:
+                simnet.run(lambda loop: _late(loop, case, info, tmp))
+            except simnet.Quiescent:
+                # nothing can happen any more: an operation waits for ever (no client timeouts are set here). A transfer that
+                # never completes delivers no wrong bytes: counted, not judged by this property
+                info["second"] = "hung " + info.get("second", "")
+    finally:
+        ctx.count(case, case[2] > 0 and case[3] != "none",
+                  sample=dict(backend=case[0], passive=case[1], data_path_extra_delay=case[2], first=case[3], first_outcome=info.get("first"),
+                              second=case[4], second_outcome=info.get("second")),
+                  classes=["late_delay_%s" % case[2], "late_first_" + case[3], "late_second_" + str(info.get("second", "?")).split(" ")[0]])
+
+
+def part_late(ctx):
+    n = 60 if ctx.tier == "quick" else 800
+    hyp_run(ctx, LATE, lambda c: check_late(ctx, c), n, name="late")
+
+
+def replay_late(case):
+    from vlib.runner import Ctx
+    check_late(Ctx(PROPERTY, "late", "thorough", 0, 0, 1), tuple(case))
+
+
 def plan(tier):
-    return [("bytes", 16), ("readers", 16)]
+    return [("bytes", 16), ("readers", 16), ("late", 8)]
